@@ -76,6 +76,9 @@ __CPROVER_assigns(self->current_state_, *new_tagged_state, WORD_GHOST)
 #endif
 
 #ifdef U_RESTORE_STATE_1
+/* the other overload (a forwarding implementation of this one calls it) */
+static bool restore_state_2(struct thread_data *self, thread_schedule_state new_state, thread_restart_state state_ex, struct thread_state old_state)
+//@LIFT restore_state_2_body
 //@FUNC
 bool restore_state_1(struct thread_data *self, struct thread_state new_state, struct thread_state old_state)
 __CPROVER_requires(lin_count == 0 && g_loads == 0 && g_cas == 0 && WF(self->current_state_) && A_TAG1(self->current_state_))
@@ -130,6 +133,8 @@ __CPROVER_assigns(self->current_state_, WORD_GHOST)
 /* thread_data members called by switch_status: the lifted bodies, inlined (their own contracts are U2) */
 static bool set_state_tagged(struct thread_data *self, thread_schedule_state newstate, struct thread_state *prev_state, struct thread_state *new_tagged_state)
 //@LIFT set_state_tagged_body
+static bool restore_state_2(struct thread_data *self, thread_schedule_state new_state, thread_restart_state state_ex, struct thread_state old_state)
+//@LIFT restore_state_2_body
 static bool restore_state_1(struct thread_data *self, struct thread_state new_state, struct thread_state old_state)
 //@LIFT restore_state_1_body
 
